@@ -211,6 +211,23 @@ impl Property for C12 {
             let got = libio::parse_text(kt, &t.s);
             let got_json = libio::parse_json(kt, &jq);
             st.evals(2);
+            // every serde entry point must agree with from_str on this string
+            let variants = if matches!(want, RefOutcome::Accept(_)) || t.s.len() % 7 == 0 { libio::parse_json_variants(kt, &t.s) } else { vec![] };
+            for (name, g) in &variants {
+                match (g, &got) {
+                    (LibOut::Ok(a, _), LibOut::Ok(b, _)) if a == b => {}
+                    (LibOut::Err(_), LibOut::Err(_)) => {}
+                    (LibOut::Panic(p), _) => return Err(format!("[{kt:?}] serde_json::{name} panicked: {p}")),
+                    (g, _) => {
+                        return Err(format!(
+                            "[{kt:?}] serde_json::{name} disagrees with from_str on the same string ({}): {} vs {}",
+                            t.label,
+                            match g { LibOut::Ok(..) => "Ok".to_string(), LibOut::Err(e) => format!("Err({e})"), LibOut::Panic(p) => format!("panic {p}") },
+                            if got.is_ok() { "Ok" } else { "Err" }
+                        ))
+                    }
+                }
+            }
             match &want {
                 RefOutcome::Unspecified(_) => {
                     st.unspecified();
